@@ -20,15 +20,15 @@ const ChmodBits = fs.ModePerm | fs.ModeSetuid | fs.ModeSetgid | fs.ModeSticky
 
 // Want is one expected payload entry.
 type Want struct {
-	Path  string // absolute, clean, no trailing slash
-	Kind  byte   // 'f' regular, 'd' declared dir, 'i' implied dir, 'l' symlink, 'g' ghost
-	Type  string // nfpm content type of the entry
-	Mode  fs.FileMode
-	Owner string
-	Group string
-	MTime time.Time
-	Data  []byte
-	Link  string
+	Path    string // absolute, clean, no trailing slash
+	Kind    byte   // 'f' regular, 'd' declared dir, 'i' implied dir, 'l' symlink, 'g' ghost
+	Type    string // nfpm content type of the entry
+	Mode    fs.FileMode
+	Owner   string
+	Group   string
+	MTime   time.Time
+	Data    []byte
+	Link    string
 	OnlyRPM bool // exists only in rpm packages (ghost and the parent it alone implies)
 }
 
@@ -56,6 +56,8 @@ type Options struct {
 	SymModes   bool // on-disk mode, explicit mode, umask, dir mode: arbitrary
 	SymOwners  bool // owner / group strings
 	SymTimes   bool // package mtime, source mtime, explicit entry mtime
+	SymPkgTime bool // only the package mtime
+	NoInfoFork bool // entry 1 always has file_info (no symbolic choice)
 	SymContent bool // file bytes (and length)
 	SymDst     bool // destination spelling
 	SymType    bool // file / config / config|noreplace / config|missingok
@@ -89,7 +91,7 @@ func name2(sym bool, name, def string) string {
 // file_info, and optionally a second entry of another kind.
 func Payload(o Options) *Scenario {
 	sc := &Scenario{}
-	sc.MTime = tm(o.SymTimes, "pkg.mtime", 1700000000)
+	sc.MTime = tm(o.SymTimes || o.SymPkgTime, "pkg.mtime", 1700000000)
 	sc.Umask = fs.FileMode(u32(o.SymModes, "umask", 0o022))
 	info := &nfpm.Info{Name: "pkg", Arch: "amd64", Platform: "linux", Version: "1.2.3", Description: "d", Maintainer: "m <m@x>", MTime: sc.MTime}
 	info.Umask = sc.Umask
@@ -113,7 +115,7 @@ func Payload(o Options) *Scenario {
 	c1 := &files.Content{Source: src, Destination: dst, Type: typ}
 	w1 := Want{Path: dst, Kind: 'f', Type: typ, Data: content, Owner: "root", Group: "root", MTime: sc.MTime}
 	w1.Mode = statMode &^ sc.Umask
-	if zz.NondetBool("f1.hasinfo") {
+	if o.NoInfoFork || zz.NondetBool("f1.hasinfo") {
 		m := fs.FileMode(u32(o.SymModes, "f1.mode", 0o4750))
 		zz.Assume(m <= 0o7777)
 		owner, group := "own", ""
